@@ -571,6 +571,159 @@ theorem bucket_meets_spec (r B : Int) (hr : 1 ≤ r) (hB : 512 ≤ B) (calls : L
           ts.zip (outs r B (allow r B { tok := B, last := t0 } t0).1 ts)).map (·.1)) = false := by simpa using hs
       simp only [hs', Bool.false_eq_true, if_false]
 
+theorem lemma_runStore_one_key (r B : Int) (st : Store) (key : Bytes) (ts : List Int) :
+    runStore r B st (ts.map fun t => (key, t)) = runKey r B (st.get key) ts := by
+  induction ts generalizing st with
+  | nil => rfl
+  | cons t ts ih =>
+    simp only [List.map_cons, runStore, runStoreWith, runKey]
+    have ih' := ih (Store.allowWith allow r B st key t).1
+    simp only [runStore] at ih'
+    rw [ih']
+    simp only [Store.allowWith, lemma_get_set_self]
+
+/-- **Cold start**: N simultaneous first requests on a fresh limiter (one key, one instant — every
+    interleaving of the atomic `Allow` calls is that sequence) admit at most `burst` -/
+theorem cold_meets_spec (r burst : Int) (hb : 0 ≤ burst) (key : Bytes) (now : Int) (N : Nat) :
+    coldSpecOK burst (runStore r (burst * 512) [] ((List.replicate N now).map fun t => (key, t))) = true := by
+  rw [lemma_runStore_one_key]
+  unfold coldSpecOK
+  simp only [decide_eq_true_eq]
+  cases N with
+  | zero => simp [runKey]; exact hb
+  | succ n =>
+    have hget : Store.get [] key = none := rfl
+    rw [hget, List.replicate_succ, lemma_runKey_none]
+    have hlen : ((outs r (burst * 512) { tok := burst * 512, last := now } (now :: List.replicate n now)).filter (·.allowed)).length
+        = countTrue (run r (burst * 512) { tok := burst * 512, last := now } (now :: List.replicate n now)).2 := by
+      rw [← lemma_outs_allowed]
+      unfold countTrue
+      generalize outs r (burst * 512) { tok := burst * 512, last := now } (now :: List.replicate n now) = l
+      induction l with
+      | nil => rfl
+      | cons o l ih => cases h : o.allowed <;> simp [h, ih]
+    rw [hlen]
+    have h := concurrent_le_tokens r (burst * 512) { tok := burst * 512, last := now } now (n + 1)
+    rw [List.replicate_succ] at h
+    have hrf : (refill r (burst * 512) { tok := burst * 512, last := now } now).tok = burst * 512 := by
+      unfold refill; simp
+    rw [hrf] at h
+    omega
+
+/-! ## the cleanup loop is unobservable -/
+
+/-- an entry the idle time has refilled completely answers every later call exactly like a brand-new
+    (full) entry — answer and entry afterwards -/
+theorem lemma_full_equiv (r B : Int) (hr : 0 ≤ r) (e : Bucket) (now t : Int) (ht : now ≤ t)
+    (hfull : e.tok + (now - e.last) * r ≥ B) :
+    allow r B e t = allow r B { tok := B, last := t } t := by
+  have h1 := lemma_mul_sub r now e.last
+  have h2 := lemma_mul_sub r t e.last
+  have hmono : r * now ≤ r * t := Int.mul_le_mul_of_nonneg_left ht hr
+  have hrf : refill r B e t = refill r B { tok := B, last := t } t := by
+    unfold refill
+    simp only [Int.sub_self, Int.zero_mul, Int.add_zero]
+    have : ¬ B > B := by omega
+    simp only [this, if_false]
+    split
+    · rfl
+    · simp only [Bucket.mk.injEq, and_true]; omega
+  unfold allow; rw [hrf]
+
+/-- the relation kept between the entry with cleanup ticks (`e'`) and the entry without (`e`): equal,
+    or `e'` has been dropped while `e` is full-equivalent from instant `now` on -/
+def Covers (r B : Int) (now : Int) (e e' : Option Bucket) : Prop :=
+  e' = e ∨ (e' = none ∧ ∃ b, e = some b ∧ b.tok + (now - b.last) * r ≥ B)
+
+theorem lemma_covers_mono (r B : Int) (hr : 0 ≤ r) (now now' : Int) (h : now ≤ now') (e e' : Option Bucket)
+    (hc : Covers r B now e e') : Covers r B now' e e' := by
+  rcases hc with h1 | ⟨h1, b, hb, hf⟩
+  · left; exact h1
+  · right
+    refine ⟨h1, b, hb, ?_⟩
+    have h2 := lemma_mul_sub r now b.last
+    have h3 := lemma_mul_sub r now' b.last
+    have : r * now ≤ r * now' := Int.mul_le_mul_of_nonneg_left h hr
+    omega
+
+/-- **Cleanup is unobservable**: on one clock (operation times non-decreasing), whatever cleanup ticks
+    are interleaved with a key's calls, the calls are answered exactly as if no cleanup ever ran — a
+    removed entry is indistinguishable from the full new one the next call creates. Every rate ≥ 0,
+    burst, TTL, entry state and operation list. -/
+theorem lemma_cleanup_covers (r B ttl : Int) (hr : 0 ≤ r) (ops : List KeyOp) (e e' : Option Bucket) (now : Int)
+    (hc : Covers r B now e e') (hsorted : sorted (now :: ops.map KeyOp.time) = true) :
+    runOps r B ttl e' ops = runOps r B ttl e (callsOf ops) := by
+  induction ops generalizing e e' now with
+  | nil => rfl
+  | cons op rest ih =>
+    simp only [List.map_cons, sorted, Bool.and_eq_true, decide_eq_true_eq] at hsorted
+    obtain ⟨hle, hs'⟩ := hsorted
+    cases op with
+    | call t =>
+      simp only [KeyOp.time] at hle hs'
+      have hsame : allow r B (e'.getD { tok := B, last := t }) t = allow r B (e.getD { tok := B, last := t }) t := by
+        rcases hc with h1 | ⟨h1, b, hb, hf⟩
+        · rw [h1]
+        · rw [h1, hb]
+          simp only [Option.getD_none, Option.getD_some]
+          exact (lemma_full_equiv r B hr b now t hle hf).symm
+      simp only [runOps, runOpsWith, callsOf, hsame]
+      congr 1
+      exact ih _ _ t (Or.inl rfl) hs'
+    | cleanup cnow =>
+      simp only [KeyOp.time] at hle hs'
+      have hc2 := lemma_covers_mono r B hr now cnow hle e e' hc
+      simp only [callsOf]
+      cases he' : e' with
+      | none =>
+        simp only [runOps, runOpsWith]
+        exact ih e none cnow (by rw [← he']; exact hc2) hs'
+      | some b' =>
+        simp only [runOps, runOpsWith]
+        have heq : e = some b' := by
+          rcases hc2 with h1 | ⟨h1, _⟩
+          · rw [← h1, he']
+          · rw [he'] at h1; cases h1
+        by_cases hd : dropsEntry r B ttl cnow b' = true
+        · simp only [hd, if_true]
+          refine ih e none cnow (Or.inr ⟨rfl, b', heq, ?_⟩) hs'
+          unfold dropsEntry at hd
+          simp only [Bool.and_eq_true, decide_eq_true_eq] at hd
+          exact hd.2
+        · simp only [hd]
+          exact ih e (some b') cnow (Or.inl heq.symm) hs'
+
+theorem cleanup_unobservable (r B ttl : Int) (hr : 0 ≤ r) (e : Option Bucket) (ops : List KeyOp)
+    (hsorted : sorted (ops.map KeyOp.time) = true) :
+    runOps r B ttl e ops = runOps r B ttl e (callsOf ops) := by
+  cases ops with
+  | nil => rfl
+  | cons op rest =>
+    exact lemma_cleanup_covers r B ttl hr (op :: rest) e e op.time (Or.inl rfl)
+      (by simp only [List.map_cons, sorted, Int.le_refl, decide_true, Bool.true_and] at hsorted ⊢; exact hsorted)
+
+/-- without cleanup ticks the operations are just the key's calls (`runKey`) -/
+theorem runOps_calls (r B ttl : Int) (e : Option Bucket) (ts : List Int) :
+    runOps r B ttl e (ts.map KeyOp.call) = runKey r B e ts := by
+  induction ts generalizing e with
+  | nil => rfl
+  | cons t ts ih =>
+    simp only [List.map_cons, runOps, runOpsWith, runKey]
+    congr 1
+    exact ih _
+
+/-- K16d / a TTL honoured without the refill test: rate 1, burst 5, TTL 0.1 s. The key uses its burst,
+    a cleanup tick 0.25 s later drops the entry, and 0.35 s after the burst five more calls are admitted —
+    with the repaired test none is -/
+theorem cleanup_asis_observable_witness :
+    (runOpsAsIs 1 2560 51 none
+      [.call 0, .call 0, .call 0, .call 0, .call 0, .cleanup 128, .call 180, .call 180, .call 180, .call 180, .call 180]).map (·.allowed)
+      = [true, true, true, true, true, true, true, true, true, true] ∧
+    (runOps 1 2560 51 none
+      [.call 0, .call 0, .call 0, .call 0, .call 0, .cleanup 128, .call 180, .call 180, .call 180, .call 180, .call 180]).map (·.allowed)
+      = [true, true, true, true, true, false, false, false, false, false] := by
+  decide
+
 /-! ## sliding window, requests served one after the other -/
 
 /-- one request served without interruption: `GetCounts`, the decision, `Incr` -/
@@ -691,7 +844,7 @@ theorem lemma_cnt_append (kw : Bytes × Nat) (a b : List (Bytes × Nat)) : cnt k
 
 theorem lemma_windowStart_mono (W a b : Nat) (h : a ≤ b) : windowStart W a ≤ windowStart W b := by
   unfold windowStart
-  exact Nat.mul_le_mul_right _ (Nat.div_le_div_right h)
+  exact Nat.sub_le_sub_right (Nat.mul_le_mul_right _ (Nat.div_le_div_right (Nat.add_le_add_right h _))) _
 
 /-- an admitted request's window is the window of one of the requests -/
 theorem lemma_adm_windows (cfg : WinCfg) (txt : Bytes) (st : WinStore) (reqs : List WinReq) (kw : Bytes × Nat)
@@ -773,6 +926,9 @@ theorem lemma_incr_same (W : Nat) (w : Win) (now : Nat) (h : w.ws = windowStart 
   generalize windowStart W now = ws0 at h ⊢
   have : ¬ w.ws < ws0 := by omega
   simp only [this, if_false]
+
+section
+attribute [local irreducible] windowStart
 
 /-- **The counting invariant of the sliding window** (requests served one after the other, clock
     non-decreasing, entries not ahead of the clock): for every key and window, the requests still to
@@ -868,6 +1024,8 @@ theorem lemma_window_count (cfg : WinCfg) (txt : Bytes) (hW : 1 ≤ cfg.W)
         rw [hst1]; unfold counted; rw [lemma_wlookup_set_other _ _ _ _ hk]
       rw [hadm, Nat.zero_add, ← hc']
       exact ih'
+
+end
 
 /-- the oracle's list of admitted (key, window) pairs, read off the serial run -/
 theorem lemma_admitted_serial (cfg : WinCfg) (txt : Bytes) (reqs rest pre : List WinReq) (st : WinStore)
